@@ -1,24 +1,38 @@
 #!/usr/bin/env python3
-"""Turns the output of tools/seedmatrix.sh into the markdown table of DESIGN.md 12.5/12.7.
-usage: seedtable.py matrix.log [--round 2]"""
-import json, re, sys, os
-log = open(sys.argv[1]).read()
-rnd = 2 if "--round" in sys.argv and sys.argv[sys.argv.index("--round") + 1] == "2" else 1
-res = {}
-for m in re.finditer(r"^seed=(\S+) check=(\S+) exit=(\d+)", log, re.M):
-    res.setdefault(m.group(1), []).append((m.group(2), int(m.group(3))))
-bad = re.findall(r"^(\S+): patch does not apply", log, re.M)
+"""Turns the output of tools/seedmatrix*.sh (one or more runs) into the markdown table of DESIGN.md 12.5/12.7/12.8.
+usage: seedtable.py --round N matrix.log [matrix2.log ...]
+A check is listed under "caught by" when it reported the violation in every given run, as "check (k/n runs)" when
+only in some, and under "not caught by" when in none."""
+import json, re, sys
+args = sys.argv[1:]
+rnd = 1
+if "--round" in args:
+    i = args.index("--round"); rnd = int(args[i + 1]); del args[i:i + 2]
+runs = []
+for f in args:
+    res = {}
+    for m in re.finditer(r"^seed=(\S+) check=(\S+) exit=(\d+)", open(f).read(), re.M):
+        res.setdefault(m.group(1), {})[m.group(2)] = int(m.group(3))
+    runs.append(res)
+seeds = sorted(set().union(*[set(r) for r in runs]))
+lo, hi = {1: (1, 2), 2: (3, 4), 3: (5, 6)}[rnd]
 print("| seeded change | what it breaks (from its meta.json) | caught by (quick tier) | not caught by |")
 print("|---|---|---|---|")
-for s in sorted(res):
+for s in seeds:
     n = int(s.split("-")[1])
-    if (rnd == 2) != (n >= 3):
+    if not (lo <= n <= hi):
         continue
     meta = json.load(open(f"/verif/seeded/{s}/meta.json"))
     title = meta.get("title", "")[:150].replace("|", "/")
-    hit = [c for c, rc in res[s] if rc == 1]
-    miss = [c for c, rc in res[s] if rc == 0]
-    other = [f"{c}(exit {rc})" for c, rc in res[s] if rc not in (0, 1)]
-    print(f"| {s} | {title} | {', '.join(hit)} | {', '.join(miss + other)} |")
-for b in bad:
-    print(f"| {b} | PATCH DOES NOT APPLY | | |")
+    checks = sorted(set().union(*[set(r.get(s, {})) for r in runs]))
+    hit, miss = [], []
+    for c in checks:
+        rcs = [r[s][c] for r in runs if s in r and c in r[s]]
+        k = sum(1 for x in rcs if x == 1)
+        if k == len(rcs):
+            hit.append(c)
+        elif k > 0:
+            hit.append(f"{c} ({k}/{len(rcs)} runs)")
+        else:
+            miss.append(c + ("" if all(x == 0 for x in rcs) else " (inconclusive)"))
+    print(f"| {s} | {title} | {', '.join(hit)} | {', '.join(miss)} |")
